@@ -70,7 +70,7 @@ def run_case(case, repo):
                 fired = rc == 1 and "VIOLATION property=%s" % pid in out
                 if not fired:
                     bad.append("%s did not fire" % pid)
-                elif exp and exp not in out:
+                elif exp and not any(e in out for e in ([exp] if isinstance(exp, str) else exp)):
                     bad.append("%s fired but did not name `%s`" % (pid, exp))
             else:
                 if rc != 0:
